@@ -52,6 +52,8 @@ type ReqObjCase struct {
 	Outer     OuterSpec `json:"outer"`
 	Obj       ObjSpec   `json:"obj"`
 	Origin    string    `json:"origin"`
+	// KeyFault: how the storage answers the key lookup for the object (see AssertCase.KeyFault)
+	KeyFault string `json:"key_fault,omitempty"`
 }
 
 const (
@@ -170,6 +172,7 @@ func genReqObj(t *rapid.T, c *Case) *ReqObjCase {
 		origin = []string{"valid"}
 	}
 	r.Origin = strings.Join(origin, "+")
+	r.KeyFault = rapid.SampledFrom(keyFaults).Draw(t, "keyfault")
 	return r
 }
 
@@ -216,6 +219,10 @@ func failedConditions(c Case, r *ReqObjCase, issuer string) []string {
 	_, held, _ := keyRelation(c, sp(X.ID), o.Tok)
 	if !held {
 		failed = append(failed, "signer")
+	}
+	if knownKeyFault(r.KeyFault) {
+		// the storage refused the key lookup: the object is not signed by a key it holds for the requester
+		failed = append(failed, "key-lookup")
 	}
 	if o.Iss == nil || *o.Iss != X.ID {
 		failed = append(failed, "iss")
@@ -292,6 +299,14 @@ func runReqObj(c Case, res *vkit.Result) {
 	}
 	failed := failedConditions(c, r, issuer)
 	valid := len(failed) == 0
+	if knownKeyFault(r.KeyFault) {
+		res.Label("ro:keyfault:" + r.KeyFault)
+		if len(failed) == 1 {
+			res.Label("ro:keyfault-only:" + r.KeyFault)
+		}
+	}
+	clearFault := keyLookupFault(st, r.KeyFault)
+	defer clearFault()
 
 	var (
 		seen     seenParams
@@ -406,8 +421,8 @@ func runReqObj(c Case, res *vkit.Result) {
 	res.Label("ro:signer:" + strings.SplitN(rel, ":", 2)[0])
 	res.Info = map[string]any{"valid": valid, "failed": failed, "outcome": outcome, "object_params_in_effect": used, "plain_params_in_effect": plain, "observed": info}
 	res.NonTrivial = !valid || len(used) > 0
-	res.Key = fmt.Sprintf("reqobj|%s|%s|failed=%v|signer=%s|sig=%s|rt=%s|fields=%s|objuri=%s|outcome=%s|used=%v",
-		r.Via, c.Router, failed, rel, r.Obj.Tok.Sig, r.Outer.ResponseType, overrideMask(r.Obj), uriClass(X, r.Obj.RedirectURI), outcome, used)
+	res.Key = fmt.Sprintf("reqobj|%s|%s|failed=%v|signer=%s|sig=%s|rt=%s|fields=%s|objuri=%s|outcome=%s|used=%v|kf=%s",
+		r.Via, c.Router, failed, rel, r.Obj.Tok.Sig, r.Outer.ResponseType, overrideMask(r.Obj), uriClass(X, r.Obj.RedirectURI), outcome, used, r.KeyFault)
 }
 
 func overrideMask(o ObjSpec) string {
